@@ -125,6 +125,10 @@ def make_scenario(rng, sid, depth, tier, *, n=None, kind=None, heights=None, tru
     total = sum(b["len"] for b in branches)
     sc = dict(id=sid, branches=branches, nodes=nodes, edges=edges, gapMs=rng.choice([0, 0, 40, 400, 1300]),
               announceMs=250, winner="a", announce=rng.choice(["outline", "both"]), **heights)
+    # blocks in [allow, require) may still be v1 (coreutils.MineBlock never makes them, the consensus
+    # rules allow them): none / all / alternating / only the first / only the last height of the window
+    if heights["allow"] < heights["require"]:
+        sc["v1Window"] = rng.choice(["", "", "all", "alt", "first", "last"])
     sc["deadlineMs"] = max(15000, 10 * nominal_ms(n, edges, total))
     sc["shape"] = "%s%d-d%d-t%d%s" % (kind, n, depth, trunk, "-cp" if cp else "")
     sc.update(force)
@@ -148,6 +152,18 @@ def directed_scenarios(tier):
             sc["noRetry"] = True      # deterministic reproductions of the known findings
             sc["deadlineMs"] = 12000
         return sc
+    # v1 blocks inside the [allow, require) window: the request path (full AddBlocks vs checkpoint +
+    # pre-validation) is a function of the BASE height of a batch (common ancestor + k * 100), and a base in
+    # the window may be a v1 block -- a lagging node whose tip is such a block, a fork point on such a
+    # block, and a 100-block batch boundary landing on the first block of the window
+    out.append(two("v1win-lagging-tip25", 35, 4, 0, n1=dict(branch="t", back=10), v1Window="all"))
+    out.append(two("v1win-fork-at-27", 27, 9, 6, v1Window="all"))
+    out.append(two("v1win-fork-at-28-alt", 28, 9, 6, v1Window="alt"))
+    out.append(two("v1win-lagging-tip29-last", 33, 3, 0, n1=dict(branch="t", back=4), v1Window="last"))
+    out.append(dict(two("v1win-batch-boundary-200", 203, 4, 0, n1=dict(tip="g"), v1Window="first", deadlineMs=30000), allow=200, require=250, final=300))
+    if tier == "thorough":
+        out.append(dict(two("v1win-batch-boundary-200-all", 255, 8, 0, n1=dict(tip="g"), v1Window="all", deadlineMs=30000), allow=200, require=250, final=300))
+        out.append(dict(two("v1win-batch-boundary-fork", 130, 120, 110, n1=dict(branch="b"), v1Window="all", deadlineMs=30000), allow=200, require=250, final=300))
     # WithMaxSendBlocks(m) on the serving node, k blocks needed: k <= m must work (boundary m-1, m)
     out.append(two("msb10-need9", 25, 9, 7, n0=dict(maxSendBlocks=10)))
     out.append(two("msb10-need10", 25, 10, 7, n0=dict(maxSendBlocks=10)))
@@ -232,6 +248,7 @@ def run_tlc_set(wd, jobs, parallel=3):
 def leg_m_jobs(tier):
     jobs = [("SyncMC", "Sync_honest_quick.cfg", "Sync honest 2 nodes, all assignments of TreeA: safety", 4, 600),
             ("SyncMC", "Sync_honest_live2.cfg", "Sync honest 2 nodes: Convergence under weak fairness", 4, 900),
+            ("SyncMC", "Sync_honest_v1win.cfg", "Sync honest 2 nodes, v1 and v2 blocks inside the [allow, require) window, request path by base height: safety + Convergence", 4, 900),
             ("SyncMC", "Sync_honest_cp2.cfg", "Sync honest 2 nodes, one bootstrapped from a checkpoint (history anchored): safety + Convergence", 4, 900)]
     if tier == "quick":
         jobs.append(("SyncMC", "Sync_honest_line3q.cfg", "Sync honest 3 nodes in a line, TreeC: safety + Convergence", 6, 900))
@@ -590,7 +607,8 @@ def leg_r(wd, tier, binary, verdict, family="honest", stub=None):
     r = vlib.run_tlc(wd, "SyncMC", cfg, workers=1, timeout=900, tag="edges_" + family)
     vlib.tlc_must_pass(r, "Sync edge export (%s)" % family)
     inits, start, medges, states = macro_graph(r.edges, honest, TREES["C" if family == "honest" else "B"])
-    nst, ned = vlib.graph_stats(r.edges)
+    _, ned = vlib.graph_stats(r.edges)
+    nst = len(states)
     if nst != r.distinct:
         raise vlib.Infra("edge export: %d states reconstructed, TLC reports %d" % (nst, r.distinct))
     rng = random.Random(vlib.seed() + (11 if family == "honest" else 12))
@@ -712,14 +730,22 @@ def selftest():
     ok3 = True
     for cfg, what in (("Sync_honest_line3_noannounce.cfg", "no re-announcement: Convergence fails (swallowed relay)"),
                       ("Sync_honest_line3_headeronly.cfg", "header-only announcements: Convergence fails (one block behind)"),
-                      ("Sync_honest_cp2_dev.cfg", "history not anchored at a checkpoint node's lowest block: Convergence fails")):
+                      ("Sync_honest_cp2_dev.cfg", "history not anchored at a checkpoint node's lowest block: Convergence fails"),
+                      ("Sync_honest_v1win_dev.cfg", "checkpoint path chosen from the allow height: a v1 base block in the window can never be fetched, Convergence fails")):
         x = vlib.run_tlc(wd, "SyncMC", cfg, workers=4, timeout=900)
         good = x.exit != 0 and "Temporal property Convergence was violated" in (x.error or "") + x.out
         log("selftest 3 (%s): %s" % (what, "ok" if good else "FAILED"))
         ok3 = ok3 and good
-    # 4. the directed reproduction of a known finding must be detected on the real code
+    # 4. the convergence oracle bites: a network in which nobody holds the last two blocks of the branch the
+    # oracle names as heaviest can never reach it and must be reported as a stall
+    sc = make_scenario(random.Random(9), "selfstall", 9, "quick", n=2, trunk=25)
+    for nd in sc["nodes"]:
+        if nd["branch"] == "a":
+            nd["back"] = 2          # nobody holds the last two blocks of the heaviest branch
+    sc["deadlineMs"] = 6000
+    sc["noRetry"] = True
     v4 = vlib.Verdict(PROP + "-selftest"); v4.findings = []
-    leg_t(wd, "quick", binary, v4, scenarios=[s for s in directed_scenarios("quick") if s["id"].startswith("sideoutline")], width=2)
-    ok4 = any("ban-honest" in m["sig"] for m in v4.violations)
-    log("selftest 4 (honest peer banned for an outline on a side-chain parent is detected): %s" % ("ok" if ok4 else "FAILED (fixed in /repo?)"))
+    leg_t(wd, "quick", binary, v4, scenarios=[sc], width=1)
+    ok4 = any(m["sig"].startswith("converge:stall") for m in v4.violations)
+    log("selftest 4 (a network that does not reach the heaviest tip is reported): %s" % ("ok" if ok4 else "FAILED"))
     return 0 if ok1 and ok2 and ok3 and ok4 else 2
